@@ -152,11 +152,11 @@ def main():
     RACE = a.race
     ROOT = a.root
     BASE = ROOT + "/base"
-    if subprocess.run(["git", "-C", "/repo", "status", "--short"], stdout=subprocess.PIPE).stdout.strip():
-        sys.exit("/repo is not clean")
     os.makedirs(ROOT, exist_ok=True)
+    # the base snapshot is taken from HEAD (not from the working tree, which evalmut / regress_seeded may be patching right now)
     shutil.rmtree(BASE, ignore_errors=True)
-    sh(["rsync", "-a", "--exclude", ".git", "/repo/", BASE + "/"])
+    os.makedirs(BASE)
+    subprocess.run("git -C /repo archive HEAD | tar -x -C " + BASE, shell=True, check=True)
     os.makedirs(os.path.dirname(a.out), exist_ok=True)
     rc, out = sh(["go", "build", "-o", ROOT + "/mutgen", "./cmd/mutgen"], cwd="/verif/harness")
     if rc != 0:
